@@ -295,6 +295,18 @@ def operator_scan(P, R, rule='C18.TAB.4'):
         if ev['k'] == 'store' and is_var(ev.get('lhs'), sw) and ev.get('op') == '=' and isinstance(const_of(ev.get('rhs')), int):
             n += 1
             R.ob(rule, bool(before.get(s.key)), s, 'the operator code %s can be reached: the bytes tested on the way are consistent' % const_of(ev['rhs']), key='op-reachable:%s' % const_of(ev['rhs']))
+    # ... and every case of the operator switch is the code of some operator: a code nothing assigns is a range form that
+    # can no longer be written (its operator now selects another case's severities)
+    cases = set()
+    for bid in p.reachable_blocks():
+        for e in p.out[bid]:
+            if e.label == 'case' and e.cond is not None and is_var(e.cond, sw):
+                cases |= set(e.vs or [])
+    assigned = {const_of(s.ev.get('rhs')) for s in p.stores() if s.ev['k'] == 'store' and is_var(s.ev.get('lhs'), sw) and s.ev.get('op') == '='} | \
+               {const_of(s.ev.get('init')) for s in p.sites() if s.ev['k'] == 'decl' and s.ev.get('var') == sw and s.ev.get('init') is not None}
+    for c in sorted(cases):
+        n += 1
+        R.ob(rule, c in assigned, p, 'case %s of the operator switch is the code of an operator the scan recognises (codes assigned: %s)' % (c, sorted(x for x in assigned if x is not None)), key='op-case-assigned:%s' % c)
     R.floor(rule, 4, 'operator codes assigned in the severity-set parser')
 
 
@@ -366,6 +378,9 @@ def run(P, R, tier):
     reset_then_attach(P, R, h)
     operator_fresh(P, R)
     operator_scan(P, R)
+    # a destination list is attached item by item: the walk over the list uses the list's own count
+    nv = rules.vector_walks(P, R, 'C18.TAB.5', units=('src/log.c',))
+    R.floor('C18.TAB.5', 3, 'vector walks in the logging unit')
     range_bounds(P, R)
     exact_names(P, R)
     wiring(P, R, h)
